@@ -370,6 +370,13 @@ def run_B(case):
         if len(bottoms) >= 2:
             _, cat_g = C.call("sample(gist, concatenation)", ocp.sample, ca.vertcat(*[s["sym"] for s in bottoms]), grid="gist")
             outs.append(ca.MX(cat_g))
+        # 'gist' of an affine image a*s + b of every signal: the coefficients are a*coeff + b
+        aff = []
+        for s in sig + bsig:
+            a_, b_ = [-1.0, 3.0, 0.5, -4.0][len(aff) % 4], [0.0, -1.0, 2.0, 1.0][len(aff) % 4]
+            _, ag = C.call("sample(gist, affine image)", ocp.sample, a_ * s["sym"] + b_, grid="gist")
+            aff.append((s, a_, b_, len(outs)))
+            outs.append(ca.MX(ag))
         F = ca.Function("s", [view.x, view.p], outs)
     except C.RockitRaised as e:
         res["violations"].append(C.exc_violation(ID, e, "B|%s" % C.grid_tag(case["grid"])))
@@ -437,6 +444,18 @@ def run_B(case):
                     "kind": "gist-concatenation", "mech": "C17|B|gist-of-concatenation",
                     "detail": "sample(vertcat(bottoms of %d chains), grid='gist') = %s, the chains' own gist coefficients %s" % (
                         len(bottoms), C.short(np.asarray(got).reshape(-1)[:6]), C.short(want.reshape(-1)[:6]))})
+                return res
+        for s, a_, b_, pos_ in aff:
+            want = a_ * np.asarray(store[s["name"]][1], dtype=float) + b_
+            got = vals[pos_]
+            got = got.reshape(want.shape) if got.size == want.size else got
+            res["evals"] += 1
+            res["counters"]["gist_affine_images"] = res["counters"].get("gist_affine_images", 0) + 1
+            if got.shape != want.shape or np.max(np.abs(got - want)) > 1e-10 * (1 + np.max(np.abs(want))):
+                res["violations"].append({
+                    "kind": "gist-affine", "mech": "C17|B|gist-of-affine-image",
+                    "detail": "sample(%g*%s%+g, grid='gist') = %s, %g*coefficients%+g = %s" % (
+                        a_, s["name"], b_, C.short(np.asarray(got).reshape(-1)[:6]), a_, b_, C.short(want.reshape(-1)[:6]))})
                 return res
         # declared derivative relations hold identically in time
         for s in sig:
